@@ -46,6 +46,7 @@ LNOTAB_SEQS = [
 ]
 LNOTAB_ZERO_SEQS = [  # 3.7 / 3.8 only: the line is recorded per statement, a second statement on the same line writes a zero line delta
     ("two statements on one line", [(0, 0), (4, 0), (8, 1), (12, 1)], 16),
+    ("every statement on the first line", [(0, 0), (6, 0), (12, 0)], 16),
     ("a statement on the same line 300 bytes on", [(0, 1), (300, 1), (302, 2)], 306),
 ]
 # (name, [(offset, line)], length before removal, [removed (from, to) ranges]): the peephole pass removed unreachable code
@@ -70,6 +71,8 @@ LINETABLE_SEQS = [
     ("large gap and large step at once", [(0, 0), (600, 400), (1300, 2), (1310, -300)], 1320),
     ("instructions without a line", [(0, 0), (4, None), (8, 0), (10, None), (12, 3), (14, None)], 18),
     ("a run without a line longer than one entry", [(0, 1), (4, None), (600, 2), (604, None)], 1200),
+    ("a run without a line of exactly 254 and of exactly 508 bytes", [(0, 0), (6, None), (260, 1), (262, None), (770, 2)], 774),
+    ("a line of exactly 254 and of exactly 508 bytes of code", [(0, 0), (254, 1), (762, 2), (764, 5)], 770),
     ("no line from the start", [(0, None), (6, 2)], 10),
     ("a step of 300 after a run without a line", [(0, 0), (2, None), (6, 300), (8, None), (10, 2)], 14),
     ("one line for all of a long body", [(0, 1)], 700),
